@@ -285,9 +285,6 @@ func (w *WaitGroup) Wait() {
 	w.wg.Wait()
 }
 
-// Once is the real sync.Once (it never blocks across tasks in this tree).
-type Once = sync.Once
-
 // Locker is sync.Locker.
 type Locker = sync.Locker
 
@@ -376,3 +373,23 @@ func (s *Sim) SetPoolStale(keep bool) { s.poolKeepStale = keep }
 //
 //go:norace
 func (s *Sim) SetPoolReuse(mode int) { s.poolReuse = mode }
+
+// Once replaces sync.Once: same semantics (f runs once; every Do returns after f has completed), but a task that
+// finds f in progress parks in the simulator instead of blocking the only running goroutine on a real mutex.
+type Once struct {
+	m    Mutex
+	done atomic.Uint32
+}
+
+//go:norace
+func (o *Once) Do(f func()) {
+	if o.done.Load() == 1 {
+		return
+	}
+	o.m.Lock()
+	defer o.m.Unlock()
+	if o.done.Load() == 0 {
+		defer o.done.Store(1)
+		f()
+	}
+}
